@@ -177,6 +177,7 @@ theorem cache_coherent (E : Env) (a : Aux) (op : Op) (h : Inv E a) : Inv E (step
     | some c =>
       exact ⟨noEmpty_removeMethod _ _ _ h.noEmpty, by intro k e he; simp [lookup] at he, rfl⟩
   | methods precs => exact h
+  | redefine => exact cache_coherent_init E
   | call precs =>
     simp only [step]
     cases hd : a.dflt with
@@ -244,6 +245,7 @@ theorem table_step (E : Env) (a : Aux) (op : Op) :
       exact this
     | some c => exact absT_removeMethod a.methods q k
   | methods precs => rfl
+  | redefine => simp only [step, tableOf]; exact absT_init
   | call precs =>
     simp only [step, tableOf]
     cases a.dflt with
@@ -459,6 +461,30 @@ theorem mutation_takes_effect_on_next_call (E : Env) (ops : List Op) (m : Op) (p
       = spec (tableOf [m] (tableOf ops Table.empty)) precs := by
   rw [dispatch_history_independent E _ precs hg, tableOf_append]
 
+/-- **A re-evaluated defgeneric forgets everything.** Whatever was defined and called before
+    `(defgeneric g …)` is evaluated again — in particular calls that filled the cache or set up the
+    fast path for the very class tuple used afterwards — the next call sees exactly the methods
+    defined since (`ops'`); directly after the redefinition that is no-applicable-method. -/
+theorem redefine_forgets_history (E : Env) (ops ops' : List Op) (precs : Precs) (hg : GoodArgs E precs) :
+    (step E (run E Aux.init (ops ++ Op.redefine :: ops')) (.call precs)).2
+      = spec (tableOf ops' Table.empty) precs := by
+  rw [dispatch_history_independent E _ precs hg, tableOf_append, tableOf_cons]
+  rfl
+
+theorem call_after_redefine_noApplicable (E : Env) (ops : List Op) (precs : Precs) (hg : GoodArgs E precs) :
+    (step E (run E Aux.init (ops ++ [Op.redefine])) (.call precs)).2 = ⟨[], .noApplicable⟩ := by
+  rw [redefine_forgets_history E ops [] precs hg]
+  have h : ∀ q, applicable (tableOf [] Table.empty) precs q = [] := by
+    intro q; simp [applicable, tableOf, Table.empty]
+  unfold spec
+  simp [h]
+
+/-- test: the seeded history — method, call (cache filled), defgeneric again, same call -/
+example : (runOps ⟨0, 1⟩ Aux.init
+      [.defmethod .primary [2] ⟨1, .stop⟩, .defmethod .before [0] ⟨2, .stop⟩, .call [[3, 2, 0]], .redefine,
+       .call [[3, 2, 0]]]).2.map (·.res)
+    = [.noCall, .noCall, .val (some 1), .noCall, .noApplicable] := by decide
+
 /-- two histories that define the same table are indistinguishable by any later call -/
 theorem same_table_same_outcome (E : Env) (ops1 ops2 : List Op) (precs : Precs) (hg : GoodArgs E precs)
     (htab : tableOf ops1 Table.empty = tableOf ops2 Table.empty) :
@@ -475,6 +501,7 @@ example : tableOf [.defmethod .primary [0] ⟨1, .stop⟩, .call [[3, 0]], .defm
 def isMutation : Op → Bool
   | .defmethod .. => true
   | .remove .. => true
+  | .redefine => true
   | _ => false
 
 /-- Calls never change the table: the table of a history is that of its mutations alone. -/
@@ -491,6 +518,9 @@ theorem calls_do_not_matter (ops : List Op) (t : Table) :
       rw [this]; simpa [tableOf] using ih _
     | remove q k =>
       have : (Op.remove q k :: ops).filter isMutation = Op.remove q k :: ops.filter isMutation := rfl
+      rw [this]; simpa [tableOf] using ih _
+    | redefine =>
+      have : (Op.redefine :: ops).filter isMutation = Op.redefine :: ops.filter isMutation := rfl
       rw [this]; simpa [tableOf] using ih _
 
 /-- **Post-quiescence judgement of the race rounds.** However the racing calls were interleaved
@@ -525,6 +555,7 @@ theorem runOps_eq_specOuts (E : Env) (a : Aux) (h : Inv E a)
       cases lookup a.methods k <;> rfl
     | methods precs =>
       simp only [specOuts, tableOf, step, compMethList_eq_spec]
+    | redefine => simp [specOuts, tableOf, step]
     | call precs =>
       simp only [specOuts, tableOf]
       rw [call_eq_spec E a h precs (hwf precs (by simp))]
